@@ -17,6 +17,25 @@ Cases are *pairs of experiments differing in exactly one aspect* (or one experim
 Oracle (property text): relevant => hashes differ, irrelevant => equal and present, missing => no hash,
 produced-content => fuzzy equal, producer change => fuzzy hash of every downstream component changes.
 
+Multiplicity ("consume files with equal contents through equal methods" is a statement about the MULTISET of
+(contents, method): two files are not one file): a target that consumes k different files with identical contents
+through a method that keeps the reference out of the arguments (copy / link / extract / copyout; input, data and
+produced files, replicas of a producer) against
+  mult:more / mult:more-other-method   k+1 such files (same method / another method)            => different
+  mult:rebalance                       [X, X, Y] against [X, Y, Y]                               => different
+  mult:replicas                        an aggregating consumer of 2 against 3 replicas           => different
+  mult:twin-more / twin-other-files    a twin in the same experiment with k+1 / with k OTHER such files => different / same
+  mult:restated                        a reference stated twice (same string; relative + absolute spelling of a
+                                       producer reference): one DataReference.absoluteReference, ONE consumption => same
+  mult:respelled                       `data/./f` next to `data/f`: two reference strings; the code counts two
+                                       consumptions, the property text does not decide: model comparison only
+and, over ALL components observed in a run (any two experiments), for the nodes whose work can be stated without the
+model (every reference is to a present file through a method that keeps it out of the arguments): same executable,
+backend+image, arguments and multiset of (contents, method) => same strong hash (fuzzy: no produced file consumed);
+a difference in executable, image, arguments or the multiset => different hashes (cross oracle).
+Decision on "the same file referenced twice": the unit of consumption is the DataReference (its absoluteReference):
+info_files is a dictionary keyed by it.  Model: Hash.hashesD = Hash.hashes on Comp.distinctRefs.
+
 Histories (one experiment, one process): the files a graph consumes are modified on the disk — rewritten in place
 or through os.replace with other bytes of the same / another length, with the old modification time restored
 exactly, moved inside the same second, later, earlier; two files exchanged by renames; removed and re-created;
@@ -68,15 +87,30 @@ def md5s(s: str) -> str:
 # ref  = {"kind": "input"|"data"|"comp", "file": str|None, "method": str, "prod": int, "abs": bool,
 #         "content": str (for input/data), "missing": bool}
 
-def ref_spelling(spec, r):
+def ref_spelling(spec, r, other=False):
+    """`dot`: the path is spelled `dir/./file` (another reference string to the same file); `other`: for a reference
+    to a producer of the same stage the other one of the two spellings (relative / absolute)"""
+    dot = "./" if r.get("dot") else ""
     if r["kind"] in ("input", "data"):
-        base = r["kind"] + "/" + r["file"]
+        base = r["kind"] + "/" + dot + r["file"]
     else:
         p = spec["comps"][r["prod"]]
-        base = ("stage%d." % p["stage"] if r.get("abs") else "") + p["name"]
+        use_abs = bool(r.get("abs"))
+        if other and r.get("same_stage"):
+            use_abs = not use_abs
+        base = ("stage%d." % p["stage"] if use_abs else "") + p["name"]
         if r.get("file"):
-            base += "/" + r["file"]
+            base += "/" + dot + r["file"]
     return base + ":" + r["method"]
+
+
+def reference_list(spec, c):
+    """the `references` of the FlowIR document; `restate` = indices of references that are stated once more (the
+    same string again, or the other spelling of a reference to a producer of the same stage)"""
+    res = [ref_spelling(spec, c["refs"][k]) for k in (c.get("reforder") or range(len(c["refs"])))]
+    for k in c.get("restate") or []:
+        res.append(ref_spelling(spec, c["refs"][k], other=True))
+    return res
 
 
 def render_args(spec, comp):
@@ -112,7 +146,7 @@ def flowir_of(spec):
         c = spec["comps"][i]
         d = {"name": c["name"], "stage": c["stage"],
              "command": {"executable": c["exe"], "arguments": render_args(spec, c)},
-             "references": [ref_spelling(spec, c["refs"][k]) for k in (c.get("reforder") or range(len(c["refs"])))]}
+             "references": reference_list(spec, c)}
         wa = {}
         if c.get("replicate"):
             wa["replicate"] = c["replicate"]
@@ -717,7 +751,45 @@ def oracle_pair(ctx, case, base_obs, var_obs, exp, base):
                     ctx.fail("fuzzy-hash-does-not-track-producer", case,
                              dict(detail, consumer=ci, refs_to_changed_producers=[
                                  {"file": r["file"], "method": r["method"], "prod": r["prod"]} for r in moved]))
-    elif aspect in IRRELEVANT:
+    elif aspect in ("mult:more", "mult:more-other-method", "mult:rebalance", "mult:replicas"):
+        # the target consumes another multiset of (contents, method): one more file (with the contents and the method
+        # of a file it consumes already, or another method), more replicas of a producer, or [X, X, Y] -> [X, Y, Y]
+        for k in tkeys:
+            if V[k]["strong"] is None or V[k]["fuzzy"] is None:
+                fail("no-hash-although-every-input-is-present")
+            elif V[k]["strong"] == B[k]["strong"]:
+                fail("different-work-same-strong-hash:" + aspect)
+            elif exp.get("source") == "direct" and V[k]["fuzzy"] == B[k]["fuzzy"]:
+                fail("different-work-same-fuzzy-hash:" + aspect)
+            elif exp.get("source") == "produced" and aspect == "mult:rebalance" and V[k]["fuzzy"] != B[k]["fuzzy"]:
+                fail("fuzzy-hash-depends-on-produced-contents")
+        unaffected = set(range(len(base["comps"]))) - {t} - downstream(base, t)
+        for ci in unaffected:
+            for k in keys_of(base_obs, ci):
+                if k in V and (V[k]["strong"], V[k]["fuzzy"]) != (B[k]["strong"], B[k]["fuzzy"]):
+                    fail("hash-of-unrelated-component-changed:" + aspect)
+    elif aspect in ("mult:twin-more", "mult:twin-other-files"):
+        tw = keys_of(var_obs, exp["twin"])[0]
+        k = tkeys[0]
+        if V[tw]["strong"] is None or V[tw]["fuzzy"] is None or V[k]["strong"] is None or V[k]["fuzzy"] is None:
+            fail("no-hash-although-every-input-is-present")
+        elif aspect == "mult:twin-more":
+            if V[tw]["strong"] == V[k]["strong"]:
+                fail("different-work-same-strong-hash:" + aspect)
+            elif exp.get("source") == "direct" and V[tw]["fuzzy"] == V[k]["fuzzy"]:
+                fail("different-work-same-fuzzy-hash:" + aspect)
+        else:
+            if V[tw]["strong"] != V[k]["strong"]:
+                fail("same-work-different-hash")
+            elif exp.get("source") == "direct" and V[tw]["fuzzy"] != V[k]["fuzzy"]:
+                fail("same-work-different-hash")
+    elif aspect == "mult:respelled":
+        # `data/./f` next to `data/f`: two reference strings, the code counts two consumptions; the property text does
+        # not say whether that is the same work: only the model is compared, and a hash must exist
+        for k in tkeys:
+            if V[k]["strong"] is None or V[k]["fuzzy"] is None:
+                fail("no-hash-although-every-input-is-present")
+    elif aspect in IRRELEVANT or aspect == "mult:restated":
         for n in base_obs["nodes"]:
             k = n["key"]
             if k not in V:
@@ -876,6 +948,7 @@ def check_pairs(ctx, pairs):
         reqs.append(bo["model"])
         reqs.append(vo["model"])
     answers = model_worlds(ctx, reqs)
+    cross_oracle(ctx, observed)
     for idx, (case, bo, vo) in enumerate(observed):
         exp = case["exp"]
         t = exp["target"]
@@ -898,6 +971,217 @@ def check_pairs(ctx, pairs):
             for which, obs, ans in (("base", bo, answers[2 * idx]), ("variant", vo, answers[2 * idx + 1])):
                 ctx.compare("memoization_hash/_fuzzy of every node == Hash.hashes (md5 := hashlib table)",
                             {"which": which, "case": case}, model_out(obs, ans), impl_out(obs))
+
+
+NOARG_ALL = ("copy", "link", "extract", "copyout")
+
+
+def work_signatures(obs):
+    """key -> (sig_full, sig_work, all_direct) for the nodes whose work can be restated without the model: every
+    reference is to a file that is there, through a method that keeps the reference out of the arguments, so the
+    work is (executable, image, arguments, multiset of (contents, method)).  A reference stated twice (same absolute
+    reference) is one consumption; nodes with `./` spellings are left out (see mult:respelled)."""
+    res = {}
+    for n, mc in zip(obs["nodes"], obs["model"]["comps"]):
+        refs = {}
+        ok = True
+        for r in mc["refs"]:
+            if r["kind"] not in ("file", "prodFile") or r.get("content") is None or r["method"] not in NOARG_ALL \
+                    or "/./" in r["abs"]:
+                ok = False
+                break
+            refs[r["abs"]] = (r["content"], r["method"], r["kind"])
+        if not ok:
+            continue
+        files = tuple(sorted((c, m) for c, m, _k in refs.values()))
+        b = mc["backend"]
+        res[n["key"]] = ((mc["exe"], b["kind"], b.get("image"), mc["args"], files),
+                         (mc["exe"], b.get("image"), mc["args"], files),
+                         all(k == "file" for _c, _m, k in refs.values()))
+    return res
+
+
+def cross_oracle(ctx, observed):
+    """The property over ALL pairs of components seen in this run (any two experiments): same executable, image,
+    arguments and multiset of consumed (contents, method) => same strong hash; a difference in one of them =>
+    different strong hashes (fuzzy: nodes that consume no produced file)."""
+    by_sig = {}
+    by_hash = {"strong": {}, "fuzzy": {}}
+    for case, bo, vo in observed:
+        for which, obs in (("base", bo), ("variant", vo)):
+            for key, (full, work, direct) in work_signatures(obs).items():
+                node = by_key(obs)[key]
+                me = {"case": case, "which": which, "key": key, "node": node, "info": obs["infos"].get(key),
+                      "work": work, "direct": direct}
+                ctx.tag("cross:comparable-node")
+                # (the fuzzy hash of a node that consumes produced files needs the fuzzy hashes of the producers)
+                if node["strong"] is None or (direct and node["fuzzy"] is None):
+                    ctx.fail("no-hash-although-every-input-is-present", case, {"node": node, "which": which})
+                    continue
+                for side in ("strong", "fuzzy"):
+                    if side == "fuzzy" and not direct:
+                        continue
+                    first = by_sig.setdefault((side, full), me)
+                    if first is not me and first["node"][side] != node[side]:
+                        ctx.fail("same-work-different-hash:cross", {"kind": "cross", "cases": [first["case"], case]},
+                                 {"a": first["node"], "b": node, "side": side, "work": repr(work)[:600]})
+                for side in ("strong", "fuzzy"):
+                    if side == "fuzzy" and not direct:
+                        continue
+                    other = by_hash[side].setdefault(node[side], me)
+                    if other is not me and other["work"] != work and (side == "strong" or other["direct"]):
+                        ctx.tag("cross:collision")
+                        ctx.fail("different-work-same-%s-hash:cross" % side,
+                                 {"kind": "cross", "cases": [other["case"], case]},
+                                 {"a": other["node"], "b": node, "info_a": other["info"], "info_b": me["info"],
+                                  "work_a": repr(other["work"])[:600], "work_b": repr(work)[:600]})
+
+
+def fresh_file(spec, stem="dup"):
+    used = set()
+    for c in spec["comps"]:
+        for r in c["refs"]:
+            if r.get("file"):
+                used.add(r["file"])
+        used |= set((c.get("out") or {}).keys())
+    k = 0
+    while True:
+        fn = "%s%d.cfg" % (stem, k)
+        if fn not in used:
+            return fn
+        k += 1
+
+
+def add_file_ref(rng, spec, t, content, method, source=None):
+    """one more reference of component t to a NEW file with these contents; returns (ref, "direct"|"produced")"""
+    fn = fresh_file(spec, rng.choice(["dup", "first", "cfg_", "marker"]))
+    cands = ["input", "data"] + (["comp", "comp"] if t > 0 else [])
+    k = source or rng.choice(cands)
+    if k == "comp" and t == 0:
+        k = "data"
+    r = {"kind": k, "file": fn, "method": method, "prod": None, "abs": False, "content": None, "missing": False}
+    if k == "comp":
+        j = rng.randrange(t)
+        same = spec["comps"][j]["stage"] == spec["comps"][t]["stage"]
+        r.update(prod=j, abs=(not same) or rng.random() < 0.4, same_stage=same)
+        spec["comps"][j]["out"][fn] = content
+    else:
+        r["content"] = content
+    spec["comps"][t]["refs"].append(r)
+    return r, ("produced" if k == "comp" else "direct")
+
+
+def set_content(spec, r, content):
+    if r["kind"] == "comp":
+        spec["comps"][r["prod"]]["out"][r["file"]] = content
+    else:
+        r["content"] = content
+
+
+def content_of(spec, r):
+    return spec["comps"][r["prod"]]["out"][r["file"]] if r["kind"] == "comp" else r["content"]
+
+
+def gen_mult_base(rng, allow_repl=False):
+    """a world whose target consumes k >= 1 DIFFERENT files with IDENTICAL contents through one method that keeps
+    the reference out of the arguments (+ sometimes a file with other contents through the same method)"""
+    while True:
+        spec = gen_world(rng, allow_repl=allow_repl)
+        cands = [i for i, c in enumerate(spec["comps"]) if not c.get("replicate") and not c.get("aggregate")]
+        if cands:
+            break
+    t = rng.choice(cands)
+    method = rng.choice(["copy", "copy", "link", "extract", "copyout"])
+    content = rng.choice(CONTENTS + ["tolerance: 1\n", "0"])
+    k = rng.choice([1, 1, 2, 2, 3])
+    dups = [add_file_ref(rng, spec, t, content, method)[0] for _ in range(k)]
+    other = None
+    if rng.random() < 0.6:
+        other = add_file_ref(rng, spec, t, content + rng.choice(["2", "\n", "#"]), method)[0]
+    return spec, t, dups, other, method, content
+
+
+def gen_mult_pairs(rng, nworlds):
+    """pairs (and twins) that differ in the NUMBER of consumed files with identical contents"""
+    pairs = []
+
+    def emit(base, v, exp):
+        pairs.append({"kind": "pair", "base": base, "variant": v, "exp": exp})
+
+    for _ in range(nworlds):
+        base, t, dups, other, method, content = gen_mult_base(rng)
+        idx = {id(r): k for k, r in enumerate(base["comps"][t]["refs"])}
+        # k -> k+1 files with the same contents through the same method
+        v = copy.deepcopy(base)
+        _r, src = add_file_ref(rng, v, t, content, method)
+        emit(base, v, {"aspect": "mult:more", "target": t, "source": src})
+        # ... through another method
+        v = copy.deepcopy(base)
+        _r, src = add_file_ref(rng, v, t, content, rng.choice([m for m in NOARG_ALL if m != method]))
+        emit(base, v, {"aspect": "mult:more-other-method", "target": t, "source": src})
+        # [X, X, Y] -> [X, Y, Y]
+        if len(dups) >= 2 and other is not None:
+            v = copy.deepcopy(base)
+            vr = v["comps"][t]["refs"][idx[id(rng.choice(dups))]]
+            set_content(v, vr, content_of(base, other))
+            emit(base, v, {"aspect": "mult:rebalance", "target": t,
+                           "source": "produced" if vr["kind"] == "comp" else "direct"})
+        # a twin inside the same experiment that consumes one more such file / the same number of OTHER such files
+        v = copy.deepcopy(base)
+        tw = copy.deepcopy(v["comps"][t])
+        tw["name"] = fresh_name(rng, v)
+        v["comps"].append(tw)
+        _r, src = add_file_ref(rng, v, len(v["comps"]) - 1, content, method, source=rng.choice(["input", "data"]))
+        emit(base, v, {"aspect": "mult:twin-more", "target": t, "twin": len(v["comps"]) - 1, "source": src})
+        direct_dups = [r for r in dups if r["kind"] != "comp"]
+        if direct_dups:
+            v = copy.deepcopy(base)
+            tw = copy.deepcopy(v["comps"][t])
+            tw["name"] = fresh_name(rng, v)
+            v["comps"].append(tw)
+            ti = len(v["comps"]) - 1
+            old = tw["refs"][idx[id(rng.choice(direct_dups))]]
+            tw["refs"].remove(old)
+            add_file_ref(rng, v, ti, content, method, source=rng.choice(["input", "data"]))
+            emit(base, v, {"aspect": "mult:twin-other-files", "target": t, "twin": ti,
+                           "source": "direct" if all(r["kind"] != "comp" for r in tw["refs"]) else "mixed"})
+        # a reference stated twice is one consumption; `dir/./file` is another reference string
+        v = copy.deepcopy(base)
+        nref = len(v["comps"][t]["refs"])
+        v["comps"][t]["restate"] = sorted(rng.sample(range(nref), rng.randint(1, min(2, nref))))
+        emit(base, v, {"aspect": "mult:restated", "target": t})
+        if rng.random() < 0.4:
+            v = copy.deepcopy(base)
+            r = dict(v["comps"][t]["refs"][idx[id(rng.choice(dups))]], dot=True)
+            v["comps"][t]["refs"].append(r)
+            emit(base, v, {"aspect": "mult:respelled", "target": t})
+        # the aspects of the general generator on a target with identical files
+        for aspect in rng.sample(["order", "file-name", "location", "mtime", "name", "method", "input-content",
+                                  "exe", "twin-same", "missing-input"], 3):
+            res = make_variant(rng, base, aspect, t)
+            if res is not None:
+                emit(base, res[0], res[1])
+    return pairs
+
+
+def gen_replica_pairs(rng, n):
+    """an aggregating consumer that stages in the (identical) output of every replica of a producer: 2 replicas
+    against 3"""
+    pairs = []
+    for _ in range(n):
+        names = rng.sample([nm for nm in NAMES if not nm[-1].isdigit()], 2)
+        content = rng.choice(CONTENTS)
+        method = rng.choice(["copy", "copy", "link", "copyout"])
+        prod = _comp(names[0], 0, rng.choice(EXES), [[{"l": rng.choice(WORDS)}]], out={"r.cfg": content}, replicate=2)
+        ref = {"kind": "comp", "file": "r.cfg", "method": method, "prod": 0, "abs": rng.random() < 0.5,
+               "content": None, "missing": False}
+        cons = _comp(names[1], 0, rng.choice(EXES), [[{"l": rng.choice(WORDS)}]], [ref], aggregate=True)
+        base = {"comps": [prod, cons], "order": None, "mtime": None, "loc": "w"}
+        v = copy.deepcopy(base)
+        v["comps"][0]["replicate"] = 3
+        pairs.append({"kind": "pair", "base": base, "variant": v,
+                      "exp": {"aspect": "mult:replicas", "target": 1, "source": "produced"}})
+    return pairs
 
 
 def chain_len(spec, t):
@@ -1023,9 +1307,11 @@ def mutate_other_length(rng, content):
     return content + rng.choice(["!", "\n", "ZZ", "0"])
 
 
-def gen_history(rng):
+def gen_history(rng, multi=False):
+    """multi: the experiment has a component that consumes several files with identical contents through one method
+    (the steps then prefer to make contents of two files equal / different again: [X, X, Y] <-> [X, Y, Y])"""
     for _ in range(30):
-        spec = gen_world(rng)
+        spec = gen_mult_base(rng, allow_repl=True)[0] if multi else gen_world(rng)
         cur = initial_contents(spec)
         if cur:
             break
@@ -1038,10 +1324,22 @@ def gen_history(rng):
     nsteps = rng.randint(2, 5)
     for k in range(nsteps):
         kinds = ["rewrite"] * 6 + ["revert"] * 2 + ["swap"] * 2 + ["remove", "touch", "touch-all", "reload", "reload"]
-        kind = "rewrite" if k == 0 else rng.choice(kinds)
+        if multi:
+            kinds += ["equalise"] * 8
+            kind = rng.choice(kinds)
+        else:
+            kind = "rewrite" if k == 0 else rng.choice(kinds)
         present = [f for f in files if cur[f] is not None]
         step = None
-        if kind == "rewrite":
+        if kind == "equalise":
+            # a file receives the bytes another consumed file holds at this moment
+            cands = [(a, b) for a in present for b in present if a != b and cur[a] != cur[b]]
+            if cands:
+                a, b = rng.choice(cands)
+                step = {"op": "write", "file": list(a), "content": cur[b], "how": rng.choice(["inplace", "replace"]),
+                        "mtime": rng.choice(["keep", "same-second", "later", "now"])}
+                cur[a] = cur[b]
+        elif kind == "rewrite":
             f = rng.choice(files)
             old = cur[f]
             if old is None:
@@ -1430,6 +1728,68 @@ def corpus_cases():
     return cases
 
 
+def corpus_mult_cases():
+    """two copies of a default configuration (two files, the same bytes) staged in by :copy against one copy;
+    [X, X, Y] against [X, Y, Y]; the same reference stated twice"""
+    def cfg(fn, content, method="copy", kind="data"):
+        return {"kind": kind, "file": fn, "method": method, "prod": None, "abs": False, "content": content,
+                "missing": False}
+
+    def world(refs, extra=None):
+        comps = [_comp("merge", 0, "sh", [[{"l": "-c"}], [{"l": "run"}]], refs)]
+        return {"comps": comps + (extra or []), "order": None, "mtime": None, "loc": "w"}
+    x, y = "tolerance: 1\n", "tolerance: 2\n"
+    one = world([cfg("first.cfg", x)])
+    two = world([cfg("first.cfg", x), cfg("second.cfg", x)])
+    cases = [{"kind": "pair", "base": one, "variant": two,
+              "exp": {"aspect": "mult:more", "target": 0, "source": "direct"}, "must_build": True}]
+    xxy = world([cfg("a.cfg", x), cfg("b.cfg", x), cfg("c.cfg", y)])
+    xyy = world([cfg("a.cfg", x), cfg("b.cfg", y), cfg("c.cfg", y)])
+    cases.append({"kind": "pair", "base": xxy, "variant": xyy,
+                  "exp": {"aspect": "mult:rebalance", "target": 0, "source": "direct"}, "must_build": True})
+    twin = world([cfg("first.cfg", x)], [_comp("merge7", 0, "sh", [[{"l": "-c"}], [{"l": "run"}]],
+                                               [cfg("first.cfg", x), cfg("second.cfg", x, kind="input")])])
+    cases.append({"kind": "pair", "base": one, "variant": twin,
+                  "exp": {"aspect": "mult:twin-more", "target": 0, "twin": 1, "source": "direct"}, "must_build": True})
+    again = copy.deepcopy(two)
+    again["comps"][0]["restate"] = [0]
+    cases.append({"kind": "pair", "base": two, "variant": again, "exp": {"aspect": "mult:restated", "target": 0},
+                  "must_build": True})
+    # empty marker files produced by one component, linked by the consumer: 2 against 3
+    def link(f, m="link"):
+        return {"kind": "comp", "file": f, "method": m, "prod": 0, "abs": False, "same_stage": True, "content": None,
+                "missing": False}
+    p2 = {"comps": [_comp("gen", 0, "/bin/echo", [[{"l": "hello"}]], out={"m0": "", "m1": "", "m2": ""}),
+                    _comp("wait", 0, "/bin/cat", [[{"l": "go"}]], [link("m0"), link("m1")])],
+          "order": None, "mtime": None, "loc": "w"}
+    p3 = copy.deepcopy(p2)
+    p3["comps"][1]["refs"].append(link("m2"))
+    cases.append({"kind": "pair", "base": p2, "variant": p3,
+                  "exp": {"aspect": "mult:more", "target": 1, "source": "produced"}, "must_build": True})
+    both = copy.deepcopy(p2)
+    both["comps"][1]["restate"] = [0, 1]
+    cases.append({"kind": "pair", "base": p2, "variant": both, "exp": {"aspect": "mult:restated", "target": 1},
+                  "must_build": True})
+    return cases
+
+
+def corpus_mult_histories():
+    """three copied files [X, X, Y]: one of the X files receives the bytes of Y ([X, Y, Y]: another multiset, the
+    same set), then the third one receives X ([X, Y, X]: the multiset of the beginning)"""
+    def cfg(fn, content):
+        return {"kind": "data", "file": fn, "method": "copy", "prod": None, "abs": False, "content": content,
+                "missing": False}
+    x, y = "tolerance: 1\n", "tolerance: 2\n"
+    spec = {"comps": [_comp("merge", 0, "sh", [[{"l": "-c"}], [{"l": "run"}]],
+                            [cfg("a.cfg", x), cfg("b.cfg", x), cfg("c.cfg", y)])],
+            "order": None, "mtime": None, "loc": "w"}
+    steps = [{"op": "write", "file": ["data", "b.cfg"], "content": y, "how": "inplace", "mtime": "keep"},
+             {"op": "write", "file": ["data", "c.cfg"], "content": x, "how": "replace", "mtime": "same-second"},
+             {"op": "reload"},
+             {"op": "write", "file": ["data", "a.cfg"], "content": y, "how": "inplace", "mtime": "keep", "order": 3}]
+    return [{"kind": "history", "spec": spec, "steps": steps, "must_build": True}]
+
+
 def gen_pairs(rng, nworlds, per_world):
     pairs = []
     for _ in range(nworlds):
@@ -1458,13 +1818,19 @@ def run(ctx):
                 "components in 1-2 stages, 0-3 references per component (input/data files, produced files, producer "
                 "directories, stdout; methods ref/output/copy/link; absolute and relative spellings; optional "
                 "replication+aggregation; local/kubernetes/lsf/docker backends), aspects: 7 hash-relevant, 7 "
-                "hash-irrelevant, 2 missing-input, 2 twin, collision; non-trivial = the target component has >= 1 "
+                "hash-irrelevant, 2 missing-input, 2 twin, collision, 8 multiplicity aspects (targets that consume 1-4 "
+                "different input/data/produced files with identical contents through copy/link/extract/copyout: one "
+                "more such file with the same / another method, [X,X,Y] against [X,Y,Y], 2 against 3 replicas of an "
+                "aggregated producer, twins with one more / with other such files, a reference stated twice, a "
+                "`./` spelling) and a cross oracle over all components of all experiments of the run whose references "
+                "stay out of the arguments; non-trivial = the target component has >= 1 "
                 "reference, or the aspect is exe/image/twin/collision; distinct by canonical JSON. Additionally "
                 "info dictionaries for the static serialiser and strings for tokens / word-boundary substitution. "
                 "Histories: one real experiment of the same family + 2-5 steps (rewrite a consumed input/data/produced "
                 "file in place or by os.replace with bytes of the same or another length, modification time kept "
                 "exactly / same second / later / earlier / now; write the original bytes back; exchange two files by "
-                "renames; remove; touch one or all files; re-create the Experiment object over the instance), all "
+                "renames; remove; touch one or all files; re-create the Experiment object over the instance; in "
+                "experiments with several identical consumed files: give one file the bytes of another), all "
                 "hashes recomputed after every step; non-trivial = some step changes, removes or exchanges a file and "
                 "some component consumes a file.")
     ctx.assumptions = [
@@ -1502,6 +1868,18 @@ def run(ctx):
         if h is not None:
             histories.append(h)
     check_histories(ctx, histories)
+    # multiplicity: the NUMBER of consumed files with identical contents (after the parts above: their random stream
+    # is the one earlier versions of this check used)
+    mult = corpus_mult_cases()
+    mult += gen_mult_pairs(rng, 14 if quick else 120)
+    mult += gen_replica_pairs(rng, 3 if quick else 20)
+    check_pairs(ctx, mult)
+    histories = corpus_mult_histories()
+    for _ in range(10 if quick else 100):
+        h = gen_history(rng, multi=True)
+        if h is not None:
+            histories.append(h)
+    check_histories(ctx, histories)
 
 
 def replay(ctx, doc):
@@ -1520,6 +1898,8 @@ def replay(ctx, doc):
         case = dict(case)
         case["must_build"] = True
         check_pairs(ctx, [case])
+    elif kind == "cross":
+        check_pairs(ctx, [dict(c, must_build=True) for c in case["cases"]])
     elif kind == "history":
         case = dict(case)
         case["must_build"] = True
